@@ -76,7 +76,7 @@ func TestC06Affinity(t *testing.T) {
 		"every choice is an eligible member; non-trivial = >=2 eligible backends and >=1 pair differing in an irrelevant dimension")
 	sub.NontrivialFloor(0.6)
 	for _, l := range []string{"src-xff-single", "src-xff-list", "src-x-real-ip", "src-remoteaddr", "differ-source-port", "differ-path", "differ-other-headers", "differ-carrier"} {
-		sub.Floor(l, 0.2)
+		sub.Floor(l, 0.15)
 	}
 	sub.Floor("addr-ipv6", 0.1)
 	sub.Floor("addr-bytes", 0.08)
